@@ -5,6 +5,8 @@ import Asn1.Generated
 import Proofs.Parse
 import Proofs.Fuel
 import Proofs.RoundTrip
+import Proofs.KernelLen
+import Proofs.KernelTag
 
 namespace Asn1.C07
 
@@ -64,5 +66,83 @@ theorem two_encodings (defMode : Bool) (maxChunk : Nat) (t1 t2 : Ty) (v1 v2 : Va
   refine ⟨encoding_then_tail defMode maxChunk t1 v1 b1 b2 hr1 hw1 ht1 h1, ?_⟩
   have := encoding_then_tail defMode maxChunk t2 v2 b2 [] hr2 hw2 ht2 h2
   simpa using this
+
+
+/-! ### at the source level: the header the encoder writes is what the decoder's blocks consume - no more, no less -/
+
+/-- the length octets the model writes: one octet below 128, else `0x80 + k` followed by exactly `k` octets -/
+theorem encodeLength_shape (n : Nat) (b : UInt8) (lb : Bytes) (h : encodeLength n = some (b :: lb)) :
+    (b.toNat < 128 ∧ lb = []) ∨ (128 < b.toNat ∧ b.toNat % 128 = lb.length) := by
+  unfold encodeLength at h
+  by_cases hs : n < 0x80
+  · simp only [hs, if_true, Option.some.injEq, List.cons.injEq] at h
+    obtain ⟨hb, hl⟩ := h
+    left
+    refine ⟨?_, hl.symm⟩
+    rw [← hb]
+    have hmod : (UInt8.ofNat n).toNat = n := toNat_ofNat_lt n (by omega)
+    omega
+  · simp only [hs, if_false] at h
+    by_cases hlen : (be256 n).length > 126
+    · simp [hlen] at h
+    · simp only [hlen, if_false, Option.some.injEq, List.cons.injEq] at h
+      obtain ⟨hb, hl⟩ := h
+      right
+      have hpos : 0 < (be256 n).length := beDigits_length_pos 254 n (by omega)
+      have hll : lb.length = (be256 n).length := by rw [← hl]; simp [natsToBytes]
+      have hmod : (UInt8.ofNat (0x80 + (be256 n).length)).toNat = 128 + (be256 n).length := toNat_ofNat_lt _ (by omega)
+      rw [← hb, hmod, hll]
+      omega
+
+/-- **a header written by the source's encoder is consumed exactly by the source's decoder, whatever follows**: for every
+    tag, either form, every contents length up to `sys.maxsize` and every `tail`, the translated `encodeTag` and
+    `encodeLength` write `ident` and `b :: lb`; on `ident ++ b :: lb ++ tail` the translated `stDecodeTag` block reads the
+    tag back having consumed exactly `|ident|` octets, and the translated `stDecodeLength` block - handed the first length
+    octet and the `b mod 128` octets after it, which is what it asks the stream for in the long form - answers `n`, and
+    those octets are exactly `lb`: none of `tail` is read -/
+theorem source_header_consumed_exactly (t : Tag) (ic allowIndef indefOk : Bool) (n : Nat) (hn : n ≤ 9223372036854775807)
+    (tail : Bytes) :
+    ∃ (ident : Bytes) (b : UInt8) (lb : Bytes),
+      GenK.encodeTag (Kernels.tagTriple t) ic = .ok (Kernels.bytesInts ident) ∧
+      GenK.encodeLength indefOk (n : Int) true = .ok (Kernels.bytesInts (b :: lb)) ∧
+      GenK.decodeTag (Kernels.bytesInts (ident ++ ((b :: lb) ++ tail))) =
+        .ok [(t.cls.bits : Int), if (t.constructed || ic) then 32 else 0, (t.num : Int), (ident.length : Int)] ∧
+      GenK.decodeLength allowIndef (b.toNat : Int) (Kernels.bytesInts ((lb ++ tail).take (b.toNat % 128))) = .ok (n : Int) ∧
+      ((b.toNat < 128 ∧ lb = []) ∨ (128 < b.toNat ∧ (lb ++ tail).take (b.toNat % 128) = lb)) := by
+  have hfits : ∃ l, encodeLength n = some l := by
+    unfold encodeLength
+    by_cases hs : n < 0x80
+    · exact ⟨_, by simp only [hs, if_true]; rfl⟩
+    · have hlen : (be256 n).length ≤ 8 := Kernels.be256_length_le 8 n (by
+        show n < 256 ^ 8
+        omega)
+      have : ¬ (be256 n).length > 126 := by omega
+      exact ⟨_, by simp only [hs, this, if_false]; rfl⟩
+  obtain ⟨l, hl⟩ := hfits
+  have hdec := decodeLength_encodeLength n l hl
+  have hne : l ≠ [] := by
+    intro h0; subst h0
+    have := hdec []
+    simp [decodeLength] at this
+  obtain ⟨b, lb, rfl⟩ := List.exists_cons_of_ne_nil hne
+  refine ⟨encodeTag t ic, b, lb, Kernels.encodeTag_kernel t ic, ?_, ?_, ?_, ?_⟩
+  · rw [Kernels.encodeLength_kernel]
+    simp [encLen, hl, Kernels.liftLen]
+  · rw [Kernels.decodeTag_kernel, decodeTag_encodeTag]
+    simp only [Kernels.liftDecTag, List.length_append, Nat.add_sub_cancel]
+  · rw [Kernels.decodeLength_kernel allowIndef b (lb ++ tail)]
+    have := hdec tail
+    simp only [List.cons_append] at this
+    rw [this]
+    have : ¬ ((n : Int) > 9223372036854775807) := by omega
+    simp [Kernels.liftDecLen, this]
+  · rcases encodeLength_shape n b lb hl with h | ⟨h1, h2⟩
+    · exact Or.inl h
+    · exact Or.inr ⟨h1, by rw [h2]; simp⟩
+
+/-- non-vacuity: `[APPLICATION 40]` constructed over 300 octets of contents is `7F 28 82 01 2C`; the identifier block stops
+    after two octets, the length block reads the two octets after `82` and answers 300 -/
+example : GenK.decodeTag [0x7F, 0x28, 0x82, 0x01, 0x2C, 0xAA, 0xBB] = .ok [64, 32, 40, 2] := by rfl
+example : GenK.decodeLength true 0x82 [0x01, 0x2C] = .ok 300 := by rfl
 
 end Asn1.C07
